@@ -41,7 +41,7 @@ def single_stage_cases(prefix, ndev, groups, frame_data, rnd, limit):
 def random_cases(rnd, n):
     out = []
     for i in range(n):
-        ndev = rnd.randint(1, 8)
+        ndev = rnd.choice([rnd.randint(1, 8), rnd.randint(1, 8), rnd.randint(9, 16)])
         scripts = []
         for _ in range(ndev):
             k = rnd.random()
@@ -57,7 +57,7 @@ def random_cases(rnd, n):
                 scripts.append(script(rnd.randint(0, 2), 0, False, rnd.randint(1, 3), rnd.choice([1, 2, 4])))
         out.append(dict(id=f"r{i}", devices=[dev(rnd.choice(["dio", "dio", "coupler"]) if k else "dio", k + 1)
                                              for k in range(ndev)],
-                        groups=rnd.choice([1, 1, 2]), target=rnd.choice(["safe_op", "op", "op", "request_op", "pre_op", "init"]),
+                        groups=rnd.choice([1, 1, 2, 3]), target=rnd.choice(["safe_op", "op", "op", "request_op", "pre_op", "init"]),
                         scripts=scripts, script_state=rnd.choice(["all", "all", "safeop", "op"]),
                         frame_data=rnd.choice([1100, 1100, 64, 48, 32, 24]), transition_timeout_ms=rnd.choice([50, 100])))
     return out
